@@ -480,10 +480,28 @@ func (p *Prog) WhyWrites(fn *ssa.Function, pkgRel, typ, field string) []string {
 // not write the transaction or WAF fields tracked by the rules.
 func (p *Prog) EdgeOK(e *callgraph.Edge) bool {
 	if p.InModule(e.Caller.Func) {
+		// a call site in a block that is dead under this build configuration's constants does not count
+		if e.Site != nil && e.Site.Block() != nil {
+			if !p.liveBlocks(e.Caller.Func)[e.Site.Block()] {
+				return false
+			}
+		}
 		return true
 	}
 	if e.Site == nil {
 		return true
 	}
 	return !e.Site.Common().IsInvoke()
+}
+
+func (p *Prog) liveBlocks(fn *ssa.Function) map[*ssa.BasicBlock]bool {
+	if p.live == nil {
+		p.live = map[*ssa.Function]map[*ssa.BasicBlock]bool{}
+	}
+	if m, ok := p.live[fn]; ok {
+		return m
+	}
+	m := LiveBlocks(fn)
+	p.live[fn] = m
+	return m
 }
